@@ -408,7 +408,7 @@ fn check_final_valid(w: &mut World, actor: &str, p: &Psbt, i: usize, how: &str) 
         t.input[i].witness = Witness::from_slice(&wit);
         let ctx = vm::TxCtx { tx: &t, index: i, prevouts: &prevouts, secp: &w.env.secp };
         if let Err(e) = vm::verify_input(&ctx, Flags::STANDARD) {
-            let cls = format!("I1:{:?}:corrupt:{}", e, how);
+            let cls = format!("I1:{:?}:{:?}:corrupt:{}", e, w.env.inputs[i].kind, how);
             raise_class(w, "C14", "I1", cls, format!("{} finalised input {} with an invalid spend ({:?}) [corruption cfg] desc={}", how, i, e, w.env.inputs[i].spec.text), actor);
         }
         return;
